@@ -256,11 +256,11 @@ Qed.
 Theorem rebuild_raw x h : wf_bytes x = true -> p2 x = Ok h ->
   let c := CNew (version_or_command (hcommand h)) (protocol_or_family (hprotocol h) (h_address_family h)) in
   brun c [WritePayload (PBytes (h_address_bytes h)); WritePayload (PBytes (h_tlv_bytes h))] = BOk (hbytes h)
-  /\ brun c [WritePayload (PBytes (h_address_bytes h)); WritePayload (PSection (h_tlv_bytes h))] = BOk (hbytes h).
+  /\ forall cursor, brun c [WritePayload (PBytes (h_address_bytes h)); WritePayload (PSection (h_tlv_bytes h) cursor)] = BOk (hbytes h).
 Proof.
   intros Hwf H. destruct (views_partition x h Hwf H) as (Hcat & _).
   destruct (payload_small x h Hwf H) as (La & Lt & _). cbv zeta.
-  split; apply (rebuild_from_parts x h); try assumption; try reflexivity.
+  split; [|intros cursor]; apply (rebuild_from_parts x h); try assumption; try reflexivity.
   - cbn [payloads forallb oversize negb andb]. replace (65535 <? lenN (h_address_bytes h)) with false by lia.
     replace (65535 <? lenN (h_tlv_bytes h)) with false by lia. reflexivity.
   - unfold enc_items. cbn [payloads map concat enc_payload]. now rewrite app_nil_r.
